@@ -61,6 +61,7 @@ type Ctx struct {
 	prof          *Profile
 	profErr       []string
 	decodeReach   map[*ssa.Function]bool
+	inlined       map[*ast.FuncDecl]bool
 }
 
 func load(repo, tier string) (*Ctx, error) {
